@@ -1123,6 +1123,15 @@ impl CanonicalizeContext {
 					}
 				}
 
+				// could have deleted all the children -- treat it like the empty mrow it now is
+				if element_name == "mrow" && children.is_empty() && mathml.attribute(INTENT_ATTR).is_none() {
+					if parent_name == "mmultiscripts" {
+						set_mathml_name(mathml, "none");
+						return Some(mathml);
+					}
+					return if parent_requires_child {Some( CanonicalizeContext::make_empty_element(mathml) )} else {None};
+				}
+
 				// could have deleted children so only one child remains -- need to lift it
 				if element_name == "mrow" && children.len() == 1 && CanonicalizeContext::is_ok_to_merge_mrow_child(mathml) {
 					// "lift" the child up so all the links (e.g., siblings) are correct
